@@ -7,10 +7,10 @@ import vlib
 META = {
     "property_id": "C03",
     "level": "proof",
-    "technique": "Coq theorems over an executable model of reduceAny/switchDimension/extract (all documents of any depth, any list of dimensions, any selection) + in-kernel correspondence of model, resolution spec, the generator's by-construction expectation and the real gconfig on generated dimensioned YAML documents x selections through builder default and environment",
+    "technique": "Coq theorems over an executable model of reduceAny/switchDimension/extract (all documents of any depth, any list of dimensions, any selection) + translator tie (Go source of keySet/parsesAll/switchDimension/reduceAny/extract regenerated as Gallina, proved equal to the model; the recursion equation of reduceAny proved to determine the function) + in-kernel correspondence of model, resolution spec, the generator's by-construction expectation and the real gconfig on generated dimensioned YAML documents x selections through builder default and environment",
     "design_ref": "DESIGN.md §4 C03",
-    "level_text": "Proof: GConfProofs.v shows for every list of dimensions, every selection and every well-formed document (WF = the property's quantifier; unbounded depth and width) that the model of builder.go's reduceAny equals resolve_spec, the structural resolution that replaces each dimension switch by its active entry (selected value, else default, else failure) and keeps other maps and lists with children resolved; that the active entry of a well-formed switch is unique (so Go's map iteration order cannot matter); that Get reads exactly the subtree at the dotted path; that loading fails iff a switch on the selected path has no active entry; and that entries of switches other than the active one never influence the result (Props/C03.v, closed under the global context). The pinned code is kept as reduce_any_orig with three machine-checked counterexamples. The model is tied to the current source by loading generated documents with the real library (public API only: WithDimension, FromBytes, GetDimension, Get) under every kind of selection and judging every observation inside Coq against the spec, the model and the generator's own expectation.",
-    "level_note": "Trusted: Coq 8.16.1 kernel + vm_compute; fidelity of the hand-written model GConfModel.v (checked by correspondence, not proved); yaml.v3 decoding of the generated text into the intended tree (round trip checked per case) and the yaml re-marshal inside Get for `any`/string; ParseGeneric of the generated enums is an oracle recorded per case; Go harness. No axioms.",
+    "level_text": "Proof: GConfProofs.v shows for every list of dimensions, every selection and every well-formed document (WF = the property's quantifier; unbounded depth and width) that the model of builder.go's reduceAny equals resolve_spec, the structural resolution that replaces each dimension switch by its active entry (selected value, else default, else failure) and keeps other maps and lists with children resolved; that the active entry of a well-formed switch is unique (so Go's map iteration order cannot matter); that Get reads exactly the subtree at the dotted path; that loading fails iff a switch on the selected path has no active entry; and that entries of switches other than the active one never influence the result (Props/C03.v, closed under the global context). Resolution is also shown independent of the order in which Go ranges over each map (teq). The pinned code is kept as reduce_any_orig with three machine-checked counterexamples. The model is tied to the current source (T) by harness/cmd/xlate_gconf, which regenerates keySet, parsesAll, switchDimension, reduceAny and extract from builder.go/config.go as Gallina at every check, and coq/ties/Tie_C03.v, which proves them equal to the model (reduceAny: the model satisfies the recursion equation read off the source, and that equation has a unique solution), and (C) by loading generated documents with the real library (public API only: WithDimension, FromBytes, GetDimension, Get) under every kind of selection and judging every observation inside Coq against the spec, the model and the generator's own expectation.",
+    "level_note": "Trusted: Coq 8.16.1 kernel + vm_compute; the translator xlate_gconf and its Go primitives (GConfGenPrims.v: map/slice/range semantics) — validated by the correspondence run; fidelity of the parts of GConfModel.v the translator does not read (initFlag/lookupEnv, strings.Split), checked by correspondence; yaml.v3 decoding of the generated text into the intended tree (round trip checked per case) and the yaml re-marshal inside Get for `any`/string; ParseGeneric of the generated enums is an oracle recorded per case; Go harness. No axioms.",
     "allowed_axioms": [],
 }
 
